@@ -93,3 +93,31 @@ prop("C16", level="exploration",
      level_note="Bounded only; nothing proved. Reference automaton written from the property text.",
      technique="bounded stand-in: exhaustive short call sequences on the real builders against a specification automaton (contract-based proof not yet available for these classes)",
      explanation="Layer definition well-formedness: exhaustive short sequences.", roots=[], bounded=[_b("builders", "bounded_layer_definitions")], trusted_base=_TB)
+
+_BND_NOTE = "Bounded only for the pipeline-level claim; reference semantics written from the property text. "
+_BND_TECH = "contract-based verification of the functions within reach (see evidence) + bounded stand-in: real entry points on generated project trees against a reference statement of the property"
+prop("C02", level="exploration",
+     level_text="Bounded exploration of the real scanner: every statement-list position of the running interpreter's grammar (read from the ast node classes, fail-closed on unknown ones) "
+                "x 19 import forms, compared edge by edge with the importees each statement names (both inclusions).",
+     level_note=_BND_NOTE + "ast.parse trusted.", technique=_BND_TECH, explanation="import statements vs edges on generated sources",
+     roots=[], bounded=[_b("projects", "bounded_import_edges")], trusted_base=_TB)
+prop("C04", level="exploration",
+     level_text="Bounded exploration: random directory trees scanned with the real entry points; modules, hierarchy and imports compared with the tree; sub-directory scans compared with the "
+                "restriction of the whole-root scan; module-object entry point compared with the path entry point.",
+     level_note=_BND_NOTE + "Input validity: no x.py next to a directory x, component names without '.'.", technique=_BND_TECH,
+     explanation="scan mirrors the directory tree", roots=[], bounded=[_b("projects", "bounded_tree_mirror")], trusted_base=_TB)
+prop("C08", level="proof",
+     level_text="Proved (string view): convert_partial_match_to_regex returns exactly ('.*' if leading *) + re.escape(text) + ('.*' if trailing * else '$'), and for EVERY literal text the four "
+                "shapes denote equality / suffix / prefix / substring under re.match (lemmas glob_shape_*; all strings, not only short ones). Bounded: the conversion is also run exhaustively on "
+                "short strings against the glob semantics, and real scans with exclusions are compared with the unfiltered scan minus the matching sub-trees.",
+     level_note="Assumed: re.escape(t) denotes exactly t, '.*' any newline-free string, '$' end of string (paths contain no newline). " + _BND_NOTE, technique=_BND_TECH,
+     explanation="glob->regex proved on strings; pruning behaviour bounded", roots=["convert_partial_match_to_regex@str", "glob_shape_exact", "glob_shape_suffix", "glob_shape_prefix", "glob_shape_infix"],
+     bounded=[_b("projects", "bounded_exclusions")], trusted_base=_TB)
+prop("C09", level="exploration",
+     level_text="Bounded exploration: for random trees, every module_path depth and every k, the level-limited architecture is compared with the truncation quotient of the full one, and rule "
+                "verdicts on names at or above the limit are compared between the two.",
+     level_note=_BND_NOTE, technique=_BND_TECH, explanation="quotient graph", roots=[], bounded=[_b("projects", "bounded_level_limit")], trusted_base=_TB)
+prop("C10", level="exploration",
+     level_text="Bounded exploration: random trees with internal and external imports scanned under every external option set; internal modules/imports must be identical in all, externals "
+                "appear/disappear exactly as the property states.",
+     level_note=_BND_NOTE, technique=_BND_TECH, explanation="external options frame", roots=[], bounded=[_b("projects", "bounded_externals")], trusted_base=_TB)
